@@ -174,8 +174,40 @@ fn gen_args(ctx: &mut Ctx) -> Args {
         }
     }
     let c = operand(ctx);
-    let f = operand_f64(ctx, a);
-    let g = operand_f64(ctx, Dd::new(f, 0.0));
+    let mut f = operand_f64(ctx, a);
+    let mut g = operand_f64(ctx, Dd::new(f, 0.0));
+    if ctx.chance(1, 20) {
+        // a factor with a short mantissa (single-precision data and thereabouts) and a whole number,
+        // the two widths adding up to 50..58 bits: the products around the 53-bit limit, where
+        // "narrow operands have an exact product" shortcuts live
+        ctx.label("rel:narrow-factor-times-whole-number");
+        let w1 = ctx.range(18, 30) as u32;
+        let w2 = (ctx.range(50, 58) as u32).saturating_sub(w1).clamp(2, 40);
+        let m1 = ((ctx.bits(w1) | 1) | (1 << (w1 - 1))) as f64;
+        let m2 = ((ctx.bits(w2) | 1) | (1 << (w2 - 1))) as f64;
+        let narrow = m1 * pow2_f64(ctx.range(-70, 40));
+        let narrow = if ctx.flag() { -narrow } else { narrow };
+        let whole = if ctx.flag() { -m2 } else { m2 };
+        let (p, q) = if ctx.flag() { (narrow, whole) } else { (whole, narrow) };
+        match ctx.below(3) {
+            0 => {
+                f = p;
+                g = q;
+            }
+            1 => {
+                a = Dd::new(p, 0.0);
+                f = q;
+                b = Dd::new(q, 0.0);
+            }
+            _ => {
+                // the whole number arises inside the operation: f / a, f % a with a narrow divisor
+                a = Dd::new(narrow, 0.0);
+                b = a;
+                f = narrow * whole * (1.0 + (ctx.bits(20) as f64) * pow2_f64(-52));
+                g = narrow;
+            }
+        }
+    }
     Args { a: (a.hi, a.lo), b: (b.hi, b.lo), c: (c.hi, c.lo), f, g, n: small_n(ctx), i: int_arg(ctx) }
 }
 
@@ -448,6 +480,119 @@ fn same_out(a: &Out, b: &Out) -> bool {
     a.len() == b.len() && a.iter().zip(b.iter()).all(|(x, y)| same_word(x.0, y.0) && same_word(x.1, y.1))
 }
 
+/// exponent handed to TwoFloat::powi by the integer-power entries of the table
+fn powi_family_exponent(name: &str, x: &Args) -> Option<i32> {
+    match name {
+        "powi" | "Float::powi" | "FloatCore::powi" => Some(x.n),
+        "Pow<i16>" => Some(x.n as i16 as i32),
+        _ => None,
+    }
+}
+
+/// The operator sequence of `TwoFloat::powi` (src/base.rs) replayed on the DEFAULT-features build
+/// with the squaring written on two copies the optimiser cannot identify (`value *= copy`), i.e.
+/// exactly what the no_std build computes if - and only if - its fma agrees with the hardware one.
+fn powi_alias_free(a: twofloat::TwoFloat, n: i32) -> twofloat::TwoFloat {
+    use std::hint::black_box;
+    use twofloat::TwoFloat;
+    match n {
+        0 => {
+            if a.hi() == 0.0 && a.lo() == 0.0 {
+                TwoFloat::NAN
+            } else {
+                TwoFloat::from(1.0)
+            }
+        }
+        1 => a,
+        -1 => a.recip(),
+        _ => {
+            let mut result = TwoFloat::from(1.0);
+            let mut n_pos = n.unsigned_abs();
+            let mut value = a;
+            while n_pos > 0 {
+                if (n_pos & 1) != 0 {
+                    result *= &value;
+                }
+                let copy = black_box(value);
+                value *= copy;
+                value = black_box(value);
+                n_pos >>= 1;
+            }
+            if n > 0 {
+                result
+            } else {
+                result.recip()
+            }
+        }
+    }
+}
+
+fn differ_only_in_zero_signs(a: &Out, b: &Out) -> bool {
+    let w = |p: f64, q: f64| same_word(p, q) || (p == 0.0 && q == 0.0);
+    a.len() == b.len() && a.iter().zip(b.iter()).all(|(x, y)| w(x.0, y.0) && w(x.1, y.1))
+}
+
+/// Verdict on a pair of results of the two configurations.  A difference is a violation, except
+/// the listed finding C11/powi-same-object-square:zero-sign, which is recognised by ALL of:
+/// the entry is an integer power (one call site: `value *= value` in TwoFloat::powi); the words
+/// differ only in the sign of zeros; and the default build's own operators, replayed with the
+/// squaring on two unidentifiable copies, reproduce the no_std result bit for bit (so the no_std
+/// fma is not at fault: the default build's optimised squaring of ONE object is).
+fn c11_verdict(ctx: &mut Ctx, name: &str, x: &Args, a: &Out, b: &Out, msg: String) {
+    if same_out(a, b) {
+        return;
+    }
+    if let Some(n) = powi_family_exponent(name, x) {
+        if differ_only_in_zero_signs(a, b) && b.len() == 1 {
+            // the operand enters as in the entry table (api.rs `t`)
+            let t = match twofloat::TwoFloat::try_from(x.a) {
+                Ok(v) => v,
+                Err(_) if x.a.0 == f64::INFINITY => twofloat::TwoFloat::INFINITY,
+                Err(_) if x.a.0 == f64::NEG_INFINITY => twofloat::TwoFloat::NEG_INFINITY,
+                Err(_) => twofloat::TwoFloat::NAN,
+            };
+            if let Ok(r) = guard(|| powi_alias_free(t, n)) {
+                if same_word(r.hi(), b[0].0) && same_word(r.lo(), b[0].1) {
+                    ctx.known_or_fail("C11/powi-same-object-square:zero-sign", msg);
+                    return;
+                }
+            }
+        }
+    }
+    ctx.fail(msg);
+}
+
+/// integer powers whose repeated squaring passes through the subnormal range (the error terms of
+/// the squares underflow to signed zeros there)
+fn powi_through_subnormals(ctx: &mut Ctx, x: &mut Args) {
+    if ctx.flag() {
+        // n = 2^(k+1) - 1 - j: the partial product a^(n - 2^k) and the top square a^(2^k) are both
+        // subnormal (zero low words), so the sign of the square's zero low word reaches the result
+        ctx.label("powi:partial-product-and-top-square-subnormal");
+        let k = ctx.range(3, 8);
+        let top = 1i64 << k;
+        let n = (2 * top - 1 - ctx.range(0, 3)) as i32;
+        let et = ctx.range(-1076, -1030);
+        let e = et.div_euclid(top);
+        let u = ctx.bits(52) >> k;
+        let hi = f64::from_bits((((e + 1023) as u64) << 52) | u);
+        let hi = if ctx.flag() { -hi } else { hi };
+        let d = dd_at(ctx, hi);
+        x.a = (d.hi, d.lo);
+        x.n = n;
+        return;
+    }
+    ctx.label("powi:square-chain-through-subnormals");
+    let n = ctx.range(2, 300) as i32;
+    let top = 1i64 << (31 - (n as u32).leading_zeros());
+    let e_target = ctx.range(-1110, -1000);
+    let e = e_target / top;
+    let hi = f64_exp(ctx, e - 1, e);
+    let d = dd_at(ctx, hi);
+    x.a = (d.hi, d.lo);
+    x.n = if ctx.chance(1, 8) { -n } else { n };
+}
+
 fn c11_differential(ctx: &mut Ctx) {
     let (ts, tn) = (std_table(), nostd_table());
     assert_eq!(ts.len(), tn.len());
@@ -476,6 +621,9 @@ fn c11_differential(ctx: &mut Ctx) {
             x.b = (EXT[ctx.below(10) as usize], 0.0);
         }
     }
+    if powi_family_exponent(es.name, &x).is_some() && ctx.chance(1, 3) {
+        powi_through_subnormals(ctx, &mut x);
+    }
     ctx.key_u64(i as u64);
     key_args(ctx, es, &x);
     ctx.note("entry", || es.name.to_string());
@@ -488,7 +636,8 @@ fn c11_differential(ctx: &mut Ctx) {
     match (&rs, &rn) {
         (Ok(a), Ok(b)) => {
             ctx.note("std", || format!("{:?}", a));
-            check!(ctx, same_out(a, b), "{}({}): default-features build returned {:?} but the no_std/libm build returned {:?}", es.name, show_args(es, &x), show(a), show(b));
+            let msg = format!("{}({}): default-features build returned {:?} but the no_std/libm build returned {:?}", es.name, show_args(es, &x), show(a), show(b));
+            c11_verdict(ctx, es.name, &x, a, b, msg);
             let fin = a.iter().any(|w| w.0.is_finite() && w.0 != 0.0);
             ctx.set_nontrivial(es.uses_fma && fin);
         }
@@ -743,6 +892,9 @@ fn c11_isolated(ctx: &mut Ctx) {
             }
         }
     }
+    if powi_family_exponent(e.name, &x).is_some() && ctx.chance(1, 3) {
+        powi_through_subnormals(ctx, &mut x);
+    }
     ctx.key_u64(i as u64);
     key_args(ctx, e, &x);
     ctx.note("entry", || e.name.to_string());
@@ -781,7 +933,8 @@ fn c11_isolated(ctx: &mut Ctx) {
     let show = |o: &Out| o.iter().map(|w| Dd::new(w.0, w.1).show()).collect::<Vec<_>>();
     match (&rs, &rn) {
         (Some(a), Some(b)) => {
-            check!(ctx, same_out(a, b), "{}({}): the default-features build (own process) returned {:?} but the --no-default-features --features math_funcs build (own process) returned {:?}", e.name, show_args(e, &x), show(a), show(b));
+            let msg = format!("{}({}): the default-features build (own process) returned {:?} but the --no-default-features --features math_funcs build (own process) returned {:?}", e.name, show_args(e, &x), show(a), show(b));
+            c11_verdict(ctx, e.name, &x, a, b, msg);
             ctx.set_nontrivial(a.iter().any(|w| w.0.is_finite() && w.0 != 0.0));
         }
         (None, None) => ctx.label("both-panicked"),
